@@ -347,3 +347,21 @@ Proof.
   set (dd := inject_Z (fi_doc f) / inject_Z (fi_ndocs f)) in *.
   unfold_consts. lra.
 Qed.
+
+Lemma file_bound_mono W W' : W <= W' -> file_bound W <= file_bound W'.
+Proof.
+  intros H. unfold file_bound. assert (B0 : 0 <= base_bound) by (unfold_consts; lra).
+  set (b := base_bound) in *. unfold c_ScoreOffset, c_scoreFactorAtomMatch, c_scoreRepoRankFactor, c_scoreFileOrderFactor. nra.
+Qed.
+
+(** the kind-score hypothesis as a boolean, checked on every correspondence case *)
+Definition kind_okb (c : cand) : bool :=
+  match c_kind c with
+  | KSym _ _ (Some q) => Qle_bool 0 q && Qle_bool q (c_maxKindFactor * c_scoreKindMatch)
+  | _ => true
+  end.
+Lemma kind_okb_ok c : kind_okb c = true -> kind_ok c.
+Proof.
+  unfold kind_okb, kind_ok. destruct (c_kind c) as [| |s e [q|]]; auto.
+  intros H. apply andb_true_iff in H as [H1 H2]. split; now apply Qle_bool_iff.
+Qed.
